@@ -1,5 +1,7 @@
 import RichModel.Model.Layout
 import RichModel.Lemmas.FramesRect
+import RichModel.Lemmas.CollapseKeepMixed
+import RichModel.Lemmas.TableWidths
 /-!
 Definitions shared by the proofs of the composition layer (C01 / C09): the visible text of a segment stream, its
 lines, "every line fits", "the last line is ended", and the *domain* of C01 as a predicate on renderable trees.
@@ -36,7 +38,7 @@ def closedR : R → Bool
   | .cast c => closedR c
   | .opaque c => closedR c
   | .group _ items => closedL items
-  | .rule o => o.title.isEmpty || o.endS == ['\n']
+  | .rule o => o.endS == ['\n']
   | .bar _ => true
   | .progressBar _ => false
   | .table o _ => optTextClosed o.title && optTextClosed o.caption
@@ -69,6 +71,14 @@ def colOptsOf : Col → ColOpts | .mk o _ _ _ => o
 /-- the child oracle of a subtree (what the frames are instantiated with) -/
 def chOf (cfg : Cfg) (r : R) (o : Opts) : Ch := ⟨fun x => measure cfg r x, fun x => render cfg r o x⟩
 
+/-- the column-width budget of a table whose columns are NOT all free to wrap (C07 `width_bound_general`): with `ws0` the first-pass
+widths of `_calculate_column_widths` at the width on offer, the columns that may not shrink (fixed `width`, `no_wrap`) at their
+first-pass width plus ONE cell for every column that may, fit that width -/
+def tableBudget (cfg : Cfg) (to : TableOpts) (cs : List ColS) (w : Nat) : Prop :=
+  ∃ ws0, (toTable cfg to cs).firstWidths cfg.fl ((toTable cfg to cs).width.getD (w : Int) - (toTable cfg to cs).extraWidth) = some ws0 ∧
+    nonWrapSum (ws0.zip (toTable cfg to cs).wrapable) + wrapCount (ws0.zip (toTable cfg to cs).wrapable)
+      ≤ (toTable cfg to cs).width.getD (w : Int) - (toTable cfg to cs).extraWidth
+
 mutual
 /-- **The domain of C01** for a renderable in *exposed* position (its lines reach the output without being cropped
 by a container), rendered under options `o` with `w` cells available.  Containers that crop what they are given
@@ -77,10 +87,12 @@ by a container), rendered under options `o` with `w` cells available.  Container
 * `Constrain` / `Align` hand their child a narrower width: that width must still be at or above the child's
   structural minimum (this is the statement's "W at or above the structural minimum", at the inner width);
 * group: every member in the domain, and every member but the last ends its line (a `ProgressBar` does not: F23);
-* table (any number of columns, also none): columns free to wrap (no `width`, `min_width`, `no_wrap`; every ratio is fine on the
+* table (any number of columns, also none): EITHER columns free to wrap (no `width`, `min_width`, `no_wrap`; every ratio is fine on the
   code with the repaired flexible-width clamp; on the code before fix 75c2776 a `ratio=0` column in an expanding table is excluded:
   finding `table-ratio-zero-column`), title / caption in the text domain and ending
-  their line, an explicit `Table(width=…)` leaves room for the borders and one cell per column;
+  their line, an explicit `Table(width=…)` leaves room for the borders and one cell per column; OR arbitrary columns (fixed `width`,
+  `max_width`, `no_wrap`) that meet the budget `tableBudget` (a binding `min_width` makes the table up to `floorSum` cells wider than
+  the offer: `table_general_bound`);
 * bar / progress bar: proper fractions (`den > 0`), no negative `width`. -/
 def Dom (cfg : Cfg) : R → Opts → Nat → Prop
   | .text t, o, _ => textDom t o
@@ -97,14 +109,22 @@ def Dom (cfg : Cfg) : R → Opts → Nat → Prop
   | .cast c, o, w => Dom cfg c o w
   | .opaque c, o, w => Dom cfg c o w
   | .group _ items, o, w => DomL cfg items o w
-  | .rule ro, o, _ => o.overflow ≠ some RichModel.Overflow.ignore ∧ (ro.endS = ['\n'] ∨ ro.endS = [])
+  | .rule ro, o, w =>
+    (o.overflow ≠ some RichModel.Overflow.ignore ∨ ∀ c ∈ (ruleText cfg.cw cfg.env cfg.v ro (w : Int)).1, c ≠ '\t') ∧
+      (ro.endS = ['\n'] ∨ ro.endS = [])
   | .bar bo, _, _ => 0 < bo.size.den ∧ 0 < bo.beginV.den ∧ 0 < bo.endV.den ∧ 0 ≤ bo.width.getD 0
   | .progressBar po, _, _ => 0 < po.total.den ∧ 0 < po.completed.den ∧ 0 ≤ po.width.getD 0
-  | .table to cols, o, _ =>
+  | .table to cols, o, w =>
     annDom to.title o ∧ annDom to.caption o ∧
-      (∀ c ∈ cols, (colOptsOf c).wrappable ∧ ((cfg.fl.flexNegative = false ∧ cfg.fl.flexClampZero = false) ∨
-        (to.expand || to.width.isSome) = false ∨ (colOptsOf c).ratio ≠ some 0)) ∧
-      (∀ tw, to.width = some tw → tableExtra to cols.length + cols.length ≤ tw)
+      (-- columns free to wrap (any number of columns, also none) …
+       ((∀ c ∈ cols, (colOptsOf c).wrappable ∧ ((cfg.fl.flexNegative = false ∧ cfg.fl.flexClampZero = false) ∨
+          (to.expand || to.width.isSome) = false ∨ (colOptsOf c).ratio ≠ some 0)) ∧
+        (∀ tw, to.width = some tw → tableExtra to cols.length + cols.length ≤ tw))
+       ∨
+       -- … or arbitrary columns (fixed `width`, `max_width`, `no_wrap`; a `min_width` only beside a fixed `width`) within the budget
+       (cols ≠ [] ∧ (∀ c ∈ cols, (colOptsOf c).minWidth = none ∨ (colOptsOf c).width.isSome = true) ∧
+        ((cfg.fl.flexNegative = false ∧ cfg.fl.flexClampZero = false) ∨ (toTable cfg (to.subst cfg.env) (colsR cfg cols)).NoRatio) ∧
+        tableBudget cfg (to.subst cfg.env) (colsR cfg cols) w))
   | .columns co _, o, _ => annDom co.title o ∧ co.lay.width = none
   | .tree _, _, _ => True
 def DomL (cfg : Cfg) : List R → Opts → Nat → Prop
